@@ -149,4 +149,144 @@ def specNil (admitsNil : Bool) (h : List Op) (o : Outcome) : Bool :=
   else if admitsNil then o == .nil
   else o == .typeError
 
+def allOutcomes : List Outcome :=
+  [.dflt false, .dflt true, .prefaultOk false, .prefaultOk true, .checkError, .nonOptional, .nil, .typeError, .refineError]
+
+/-! ### Wrappers: `core/transform.go` — `ZodTransform` and `ZodPipe` around a modified schema
+
+  `S.Transform(f₁)` is `NewZodTransform(S, f₁)`; further `.Transform(fᵢ)` / `.Pipe(T)` calls on the
+  result are `ZodTransform.Transform`, `ZodTransform.Pipe`, `ZodPipe.Transform`, `ZodPipe.Pipe`. Every
+  constructor stores `source` and a **clone of the source's internals** (transform.go:112,184,199,219),
+  and `ZodTransform.Parse` decides its short-circuit by reading `t.source.Internals()` on every call
+  (transform.go:45-46). Callbacks are positional sentinels: the wrapper attached as number `i` (counting
+  from the base) calls `fᵢ`, which logs its argument and returns the tagged value `fᵢ(arg)`; a pipe
+  target logs its argument and returns it unchanged. -/
+
+/-- One wrapper call: `.Transform(f)` or `.Pipe(target)`. -/
+inductive W where
+  | tf | pipe
+  deriving DecidableEq, Repr
+
+/-- The input given to `Parse`. -/
+inductive In where
+  | nil       -- untyped nil or a nil pointer (`isNilInput`)
+  | valid     -- a non-nil value the base schema accepts
+  | invalid   -- a non-nil value the base schema rejects
+  deriving DecidableEq, Repr
+
+def In.isNil : In → Bool
+  | .nil => true
+  | _ => false
+
+/-- Values flowing through the wrappers (symbolic: who produced it, which callbacks it went through). -/
+inductive V where
+  | src (o : Outcome)       -- what the base schema produced on its nil path, as a class (default / prefault / nil)
+  | inp                     -- the non-nil input as validated by the base schema
+  | app (i : Nat) (v : V)   -- `fᵢ v`
+  deriving DecidableEq, Repr
+
+/-- One entry of the callback log. -/
+structure Call where
+  pipe : Bool     -- pipe target (true) or transform function (false)
+  id : Nat
+  arg : V
+  deriving DecidableEq, Repr
+
+/-- Result of a `Parse`. -/
+inductive R where
+  | ok (v : V)
+  | err (o : Outcome)
+  deriving DecidableEq, Repr
+
+/-- The base schema's `Parse(nil)` as a result: `nilOutcome` with the successful classes as values. -/
+def baseNil (admitsNil : Bool) (i : I) : R :=
+  match nilOutcome admitsNil i with
+  | .dflt k => .ok (.src (.dflt k))
+  | .prefaultOk k => .ok (.src (.prefaultOk k))
+  | .nil => .ok (.src .nil)
+  | o => .err o
+
+/-- The base schema's `Parse`. A non-nil input never consults the modifier fields
+    (`processModifiersCore` returns "not handled", modifiers.go:48). -/
+def parseBase (admitsNil : Bool) (i : I) : In → R
+  | .nil => baseNil admitsNil i
+  | .valid => .ok .inp
+  | .invalid => .err .checkError
+
+/-- `si.DefaultValue != nil || si.DefaultFunc != nil` (transform.go:46, parser.go:45). -/
+def hasDefault (i : I) : Bool := i.dv.isSome || i.df.isSome
+
+/-- A wrapped schema as the constructors build it. -/
+inductive WS where
+  | base (i : I)
+  | tf (source : WS) (id : Nat) (internals : I)
+  | pipe (source : WS) (id : Nat) (internals : I)
+  deriving Repr
+
+def WS.internals : WS → I
+  | .base i => i
+  | .tf _ _ i => i
+  | .pipe _ _ i => i
+
+/-- `NewZodTransform` / `ZodTransform.Transform` / `ZodPipe.Transform`, resp. `NewZodPipe`:
+    `internals: source.Internals().Clone()` (`Clone` copies the modifier fields). -/
+def WS.attach (s : WS) (id : Nat) : W → WS
+  | .tf => .tf s id s.internals
+  | .pipe => .pipe s id s.internals
+
+/-- Attach the wrappers `ws` (innermost first) with ids `n, n+1, …`. -/
+def WS.wrapFrom (s : WS) (n : Nat) : List W → WS
+  | [] => s
+  | w :: ws => (s.attach n w).wrapFrom (n + 1) ws
+
+def wrap (i : I) (ws : List W) : WS := (WS.base i).wrapFrom 1 ws
+
+/-- `ZodTransform.Parse` (transform.go:44-70) and `ZodPipe.Parse` (transform.go:135-141): result and
+    callback log. -/
+def WS.parse (admitsNil : Bool) (inp : In) : WS → R × List Call
+  | .base i => (parseBase admitsNil i inp, [])
+  | .tf s id _ =>
+    if inp.isNil && hasDefault s.internals then
+      s.parse admitsNil inp          -- `hasDefault`: return `source.Parse(input)` as it is (`Out` = any: the assertion holds)
+    else
+      match s.parse admitsNil inp with
+      | (.ok v, log) => (.ok (.app id v), log ++ [⟨false, id, v⟩])
+      | (.err o, log) => (.err o, log)
+  | .pipe s id _ =>
+    match s.parse admitsNil inp with
+    | (.ok v, log) => (.ok v, log ++ [⟨true, id, v⟩])      -- `targetFn(intermediate)`: the logging target returns its input
+    | (.err o, log) => (.err o, log)
+
+/-! ### The documented meaning for wrapped schemas (independent of `WS.parse`) -/
+
+/-- Every wrapper runs exactly once, in attachment order, each on the previous one's output. -/
+def runAll (v : V) (n : Nat) : List W → V × List Call
+  | [] => (v, [])
+  | .tf :: ws => let (r, l) := runAll (.app n v) (n + 1) ws; (r, ⟨false, n, v⟩ :: l)
+  | .pipe :: ws => let (r, l) := runAll v (n + 1) ws; (r, ⟨true, n, v⟩ :: l)
+
+/-- What a base result becomes under the wrappers when nothing is short-circuited. -/
+def extend (r : R) (n : Nat) (ws : List W) : R × List Call :=
+  match r with
+  | .ok v => let (r', l) := runAll v n ws; (.ok r', l)
+  | .err o => (.err o, [])
+
+/-- The statement for a nil input, given the class `o` the statement assigns to the bare schema:
+    the default is returned as it is and *no callback runs*; every other successful class goes through
+    all wrappers; an error stays that error and no callback runs. -/
+def specWrapped (o : Outcome) (ws : List W) : R × List Call :=
+  match o with
+  | .dflt k => (.ok (.src (.dflt k)), [])
+  | .prefaultOk k => extend (.ok (.src (.prefaultOk k))) 1 ws
+  | .nil => extend (.ok (.src .nil)) 1 ws
+  | o => (.err o, [])
+
+/-- Admissible observations for a nil input after history `h` under wrappers `ws`. -/
+def specNilW (admitsNil : Bool) (h : List Op) (ws : List W) (obs : R × List Call) : Bool :=
+  allOutcomes.any fun o => specNil admitsNil h o && obs == specWrapped o ws
+
+/-- A non-nil input: as the base schema (without modifiers), then all wrappers. -/
+def specValW (valid : Bool) (ws : List W) : R × List Call :=
+  extend (if valid then .ok .inp else .err .checkError) 1 ws
+
 end Gozod.Mods
